@@ -16,11 +16,13 @@ package sync2
 // sequential one in which each call takes effect at that step).
 
 //@ func New
+//@ terminates
 //@ property C20 C04
 //@ assigns nothing
 //@ ensures [empty] result != nil && fresh(result) && forall(k, K, !result.Dom[k])
 
 //@ func (*Map).Load
+//@ terminates
 //@ property C20 C04
 //@ linearizable
 //@ shared m.Dom, m.Val, m.m.SDom, m.m.SVal
@@ -32,6 +34,7 @@ package sync2
 //@ ensures [unchanged] m.Dom == old(m.Dom) && m.Val == old(m.Val)
 
 //@ func (*Map).Store
+//@ terminates
 //@ property C20 C04
 //@ linearizable
 //@ shared m.Dom, m.Val, m.m.SDom, m.m.SVal
@@ -44,6 +47,7 @@ package sync2
 //@ ghost after call Store: m.Val = store(m.Val, key, value)
 
 //@ func (*Map).Delete
+//@ terminates
 //@ property C20 C04
 //@ linearizable
 //@ shared m.Dom, m.Val, m.m.SDom, m.m.SVal
@@ -53,6 +57,7 @@ package sync2
 //@ ghost after call Delete: m.Dom = store(m.Dom, key, false)
 
 //@ func (*Map).LoadOrStore
+//@ terminates
 //@ property C20 C04
 //@ linearizable
 //@ shared m.Dom, m.Val, m.m.SDom, m.m.SVal
